@@ -1,7 +1,7 @@
 # Verdict logic shared by all properties (DESIGN.md section 6).
 import os, sys, re, json, time, glob, subprocess, hashlib, shutil, fcntl, traceback, importlib
 from collections import Counter
-from . import gtlib
+from . import gtlib, drift
 from .gtlib import VERIF, COQ
 
 FORBIDDEN = re.compile(r"\b(Admitted|admit|Axiom|Axioms|Parameter|Parameters|Conjecture|Admit Obligations|bypass_check)\b|Unset Guard Checking|Unset Positivity Checking|Unset Universe Checking|type-in-type|impredicative-set")
@@ -16,6 +16,20 @@ TRUSTED_BASE = [
     "integration library is installed",
     "floating point, Cholesky, XLA are not modelled: the model is exact, equality is 1e-8 agreement",
 ]
+
+
+def _prop_files():
+    out = {}
+    try:
+        for l in open(os.path.join(VERIF, "properties.jsonl")):
+            p = json.loads(l)
+            out[p["id"]] = list(p.get("anchors", {}).get("files", []))
+    except Exception:
+        pass
+    return out
+
+
+PROP_FILES = _prop_files()
 
 
 def OUTDIR(kind):
@@ -267,6 +281,21 @@ def main(argv=None):
         descs.append(json.load(open(p)))
     n_corpus = len(descs)
     descs += mod.gen_descs(g, tier)
+    # source drift (harness/drift.py): the library functions whose normalised AST differs from the baseline the model was
+    # validated against.  No verdict; where the drift touches files this property is anchored in, the quick tier is widened
+    # with cases of the thorough generator (the search grows exactly when the code has changed).
+    drifted = drift.changed()
+    anchored = set(PROP_FILES.get(prop, []))
+    drift_here = [n for n in drifted if n.split("::")[0] in anchored or n == "<no baseline>"]
+    n_widened = 0
+    if tier == "quick" and drift_here and os.environ.get("VERIF_NO_WIDEN") != "1":
+        have = {fingerprint(d) for d in descs}
+        extra = [d for d in mod.gen_descs(gtlib.Gen(seed + 1), "thorough") if fingerprint(d) not in have]
+        budget = min(len(extra), max(40, 3 * len(descs)), getattr(mod, "WIDEN_MAX", 400))
+        step = max(1, len(extra) // max(1, budget))
+        extra = extra[::step][:budget]
+        n_widened = len(extra)
+        descs += extra
 
     # ---- 3. both sides
     recs, errors, t_impl, t_coq = run_cases(mod, descs, workdir)
@@ -369,6 +398,8 @@ def main(argv=None):
             known_findings_seen=sorted(set(known_seen)),
             impl_wall_s=round(t_impl, 1), model_wall_s=round(t_coq, 1),
             explanation=getattr(mod, "EXPLANATION", ""),
+            source_drift=dict(changed_functions=drifted[:40], in_anchored_files=drift_here[:40], extra_cases_from_thorough_generator=n_widened,
+                              baseline=os.path.relpath(drift.BASELINE, VERIF)),
             extra=extra,
         ),
         assumptions=getattr(mod, "ASSUMPTIONS", []),
